@@ -34,7 +34,7 @@ func TestC08(t *testing.T) {
 }
 
 func TestC09(t *testing.T) {
-	runProfile(t, profRestore, runOpts{weights: restoreWeights, seedFiles: 3})
+	runProfile(t, profRestore, runOpts{weights: restoreWeights, seedFiles: 3, decorate: true})
 }
 
 func TestC11(t *testing.T) {
@@ -159,5 +159,5 @@ func TestC05Histories(t *testing.T) {
 }
 
 func TestC06CLI(t *testing.T) {
-	runProfile(t, profIndex, runOpts{weights: indexWeights, seedFiles: 3})
+	runProfile(t, profIndex, runOpts{weights: indexWeights, seedFiles: 3, decorate: true})
 }
